@@ -447,6 +447,9 @@ pub fn boundary_contexts(input: &str, cuts: &[usize]) -> Vec<u32> {
 // ------------------------------------------------------------------ oracles
 
 fn check_c04(obs: &RunObs) -> Result<(), Violation> {
+    if obs.stats.livelock != 0 {
+        return Err(Violation::new("feed-livelock", format!("feed() was resumed {} times without finishing the delivered input", obs.stats.feeds)));
+    }
     if let Some(rest) = &obs.queue_nonempty_after_done {
         return Err(Violation::new(
             "queue-not-empty-after-done",
